@@ -145,8 +145,28 @@ type Eng struct {
 	walBefore         map[string]int64
 }
 
+// tmpBase prefers a memory file system for the shard directories: the engine fsyncs the WAL
+// on every write and several files per snapshot, which dominates the run time on a loaded
+// disk.  Durability is not what is observed here (crash images are copies of the directory
+// tree, cut explicitly), so tmpfs loses nothing.  VERIF_ENG_TMP overrides; "" = os.TempDir().
+func tmpBase() string {
+	if d, ok := os.LookupEnv("VERIF_ENG_TMP"); ok {
+		return d
+	}
+	if os.Getenv("TMPDIR") == "" {
+		if fi, err := os.Stat("/dev/shm"); err == nil && fi.IsDir() {
+			if f, err := os.CreateTemp("/dev/shm", "verif-probe-"); err == nil {
+				f.Close()
+				os.Remove(f.Name())
+				return "/dev/shm"
+			}
+		}
+	}
+	return ""
+}
+
 func New() *Eng {
-	top, err := os.MkdirTemp("", "verif-eng-")
+	top, err := os.MkdirTemp(tmpBase(), "verif-eng-")
 	if err != nil {
 		panic(err)
 	}
